@@ -34,6 +34,15 @@ CHECKS = {
              'strings) is driven as call, notification and batch element on both dispatchers and compared with the failure '
              'table; exception type names, marker strings and traceback text are searched in the raw response.',
         note='trusted: vmon/models/server.py, vmon/strictjson.py; data/message of library-generated errors are not judged'),
+    'C04': dict(
+        category='exploration', design_ref='DESIGN.md §3 C04',
+        technique='runtime monitor: generated programs, Python twin call as binding oracle, context identity check',
+        text='All signatures of <= 3 (thorough 4) parameters over the five parameter kinds, defaults, context placement and '
+             'passing mode, def / async def / view method are generated as source, registered on the real dispatchers and '
+             'driven with all positional lists 0..5 and all named subsets (incl. an unknown name and the context name); a '
+             'twin function with the same signature called directly decides what must bind. Parameter names collide '
+             'textually with the context name and one function object is registered with and without a context on purpose.',
+        note='trusted: CPython call semantics (the twin), the admissibility rule in DESIGN.md §3 C04; known findings D4, D18'),
     'C05': dict(
         category='exploration', design_ref='DESIGN.md §3 C05',
         technique='runtime monitor: round-trip oracle (to_json -> text -> strict decode -> from_json -> to_json) with field-wise comparison',
